@@ -8,6 +8,7 @@ import (
 	"fmt"
 	"math/rand"
 	"net"
+	"time"
 
 	"verif/harness/hv"
 
@@ -223,10 +224,147 @@ func mkConf(v hv.Val) cluster_table_conf.SubClusterBackend {
 	return conf
 }
 
+// kind 7: [7 conf ops] one BalanceRR, WlcSmooth, slow start + connection counts
+func impl7(top hv.L) hv.Val {
+	brr := bal_slb.NewBalanceRR("sub")
+	brr.Init(mkConf(top[1]))
+	find := func(id int) *backend.BfeBackend {
+		for _, b := range bal_slb.VerifC04Backends(brr) {
+			if b.Port-8000 == id {
+				return b
+			}
+		}
+		return nil
+	}
+	out := hv.L{}
+	for _, o := range hv.AsList(top[2]) {
+		op := hv.AsList(o)
+		switch hv.AsInt(op[0]) {
+		case 0:
+			k := int(hv.AsInt(op[1]))
+			ps := make(hv.L, 0, k)
+			for j := 0; j < k; j++ {
+				b, err := brr.Balance(bal_slb.WlcSmooth, nil)
+				if err != nil || b == nil {
+					ps = append(ps, hv.I(-1))
+				} else {
+					ps = append(ps, hv.I(b.Port-8000))
+				}
+			}
+			out = append(out, ps)
+			continue
+		case 1:
+			brr.Update(mkConf(op[1]))
+		case 2:
+			if b := find(int(hv.AsInt(op[1]))); b != nil {
+				b.SetAvail(hv.AsBool(op[2]))
+			}
+		case 3:
+			brr.SetSlowStart(int(hv.AsInt(op[1])))
+		case 4:
+			bal_slb.VerifC04SetElapsed(brr, 8000+int(hv.AsInt(op[1])), time.Duration(hv.AsInt(op[2]))*time.Millisecond)
+		case 5:
+			if b := find(int(hv.AsInt(op[1]))); b != nil {
+				b.SetRestart(true)
+			}
+		case 6:
+			if b := find(int(hv.AsInt(op[1]))); b != nil {
+				backend.VerifC04SetConnNum(b, int(hv.AsInt(op[2])))
+			}
+		default:
+			panic("bad op")
+		}
+		out = append(out, hv.L{})
+	}
+	return out
+}
+
+func rampAt(T, final, num, den int) int {
+	e := T * 1000 * num / den
+	if final > 0 {
+		for (final*e)%(1000*T)+final*2000 >= 1000*T && (final*e)/(1000*T) < final {
+			e += 500
+		}
+	}
+	return e
+}
+
+// WLC with a backend inside its slow-start ramp: its CURRENT weight (below the target) decides the comparison
+func gen7(r *hv.Rng) (string, hv.Val) {
+	n := r.Range(1, 3)
+	ws := make([]int, n)
+	conf := hv.L{}
+	for j := range ws {
+		ws[j] = r.Range(1, 4)
+		conf = append(conf, hv.L{hv.I(j), hv.I(ws[j])})
+	}
+	T := []int{3600, 7200}[r.Intn(2)]
+	ops := hv.L{hv.L{hv.I(3), hv.I(T)}}
+	pk := func(k int) { ops = append(ops, hv.L{hv.I(0), hv.I(k)}) }
+	setConns := func(ids []int, wts []int) {
+		q := r.Range(0, 4)
+		for k, id := range ids {
+			c := 0
+			switch r.Intn(3) {
+			case 0:
+				c = q * wts[k]
+			case 1:
+				c = q*wts[k] + r.Range(-1, 1)
+			default:
+				c = r.Intn(12)
+			}
+			if c < 0 {
+				c = 0
+			}
+			ops = append(ops, hv.L{hv.I(6), hv.I(id), hv.I(c)})
+		}
+	}
+	ids := make([]int, n)
+	for j := range ids {
+		ids[j] = j
+	}
+	setConns(ids, ws)
+	pk(r.Range(1, 3))
+	class := "ss-wlc-add"
+	var tid, tw int
+	if r.Bool() {
+		tid, tw = n, r.Range(2, 5)
+		next := append(hv.L{}, conf...)
+		next = append(next, hv.L{hv.I(tid), hv.I(tw)})
+		ops = append(ops, hv.L{hv.I(1), next})
+		ids = append(ids, tid)
+		ws = append(ws, tw)
+	} else {
+		class = "ss-wlc-restart"
+		tid = r.Intn(n)
+		tw = ws[tid]
+		ops = append(ops, hv.L{hv.I(2), hv.I(tid), hv.I(0)})
+		pk(r.Range(1, 2))
+		ops = append(ops, hv.L{hv.I(5), hv.I(tid)}, hv.L{hv.I(2), hv.I(tid), hv.I(1)})
+	}
+	pk(1) // ramp starts
+	for _, f := range [][2]int{{r.Range(1, 4), 10}, {r.Range(5, 9), 10}, {1, 1}, {14, 10}} {
+		if r.Chance(3, 4) {
+			ops = append(ops, hv.L{hv.I(4), hv.I(tid), hv.I(rampAt(T, tw*100, f[0], f[1]))})
+			setConns(ids, ws)
+			pk(r.Range(1, 4))
+			if r.Bool() {
+				// the cold backend heavier than it looks by its target weight
+				ops = append(ops, hv.L{hv.I(6), hv.I(tid), hv.I(r.Range(1, 2*tw))})
+				pk(r.Range(1, 3))
+			}
+		}
+	}
+	return class, hv.L{hv.I(7), conf, ops}
+}
+
 func impl(in hv.Val) hv.Val {
 	top := hv.AsList(in)
 	if len(top) == 4 {
 		return implG(top)
+	}
+	if _, isList := top[0].(hv.L); !isList && hv.AsInt(top[0]) == 7 {
+		return impl7(top)
 	}
 	rand.Seed(hv.AsInt(top[2]))
 	brr := bal_slb.NewBalanceRR("sub")
@@ -270,6 +408,9 @@ func impl(in hv.Val) hv.Val {
 func gen(r *hv.Rng, i int, tier string) (string, hv.Val) {
 	if r.Chance(1, 4) {
 		return genG(r)
+	}
+	if r.Chance(1, 4) {
+		return gen7(r)
 	}
 	n := r.Range(1, 6)
 	if r.Chance(1, 12) {
